@@ -172,4 +172,50 @@ Proof.
   rewrite H2. reflexivity.
 Qed.
 
+(* Ellipsis: a leading or trailing `...` is exactly the tuple with the missing full slices written out, so the composite theorem
+   above applies to the expanded tuple *)
+Lemma filter_ell_none (t : list ixitem) : forallb (fun it => negb (is_ell it)) t = true -> filter is_ell t = [].
+Proof.
+  induction t as [|it t IH]; intros H; [reflexivity|]. simpl in H. apply andb_true_iff in H. destruct H as [H1 H2].
+  simpl. apply negb_true_iff in H1. rewrite H1. apply IH. exact H2.
+Qed.
+Lemma no_ell_repeat k (t : list ixitem) : forallb (fun it => negb (is_ell it)) t = true ->
+  forallb (fun it => negb (is_ell it)) (repeat full_slice k ++ t) = true.
+Proof. intros H. rewrite forallb_app, H, andb_true_r. induction k; simpl; auto. Qed.
+Lemma no_ell_repeat_r k (t : list ixitem) : forallb (fun it => negb (is_ell it)) t = true ->
+  forallb (fun it => negb (is_ell it)) (t ++ repeat full_slice k) = true.
+Proof. intros H. rewrite forallb_app, H. simpl. induction k; simpl; auto. Qed.
+
+Theorem getitem_leading_ellipsis (x : tt R) (t : list ixitem) : forallb (fun it => negb (is_ell it)) t = true ->
+  getitem_tuple x (IEll :: t) =
+  getitem_tuple x (repeat full_slice (length x + 1 + length (filter is_none t) - S (length t)) ++ t).
+Proof.
+  intros H. unfold getitem_tuple at 1. cbn [filter is_ell]. rewrite (filter_ell_none t H). cbn [length Nat.ltb Nat.leb].
+  unfold expand_ell at 1. cbn [filter is_none length].
+  set (k := (length x + 1 + length (filter is_none t) - S (length t))%nat).
+  pose proof (no_ell_repeat k t H) as Hn.
+  unfold getitem_tuple. destruct (no_ell_expand (length x) _ Hn) as [He Hf]. rewrite Hf, He. reflexivity.
+Qed.
+
+Theorem getitem_trailing_ellipsis (x : tt R) (t : list ixitem) it0 : forallb (fun it => negb (is_ell it)) (it0 :: t) = true ->
+  getitem_tuple x ((it0 :: t) ++ [IEll]) =
+  getitem_tuple x ((it0 :: t) ++ repeat full_slice (length x + 1 + length (filter is_none (it0 :: t)) - S (S (length t)))).
+Proof.
+  intros H. set (u := it0 :: t) in *.
+  assert (Hfe : filter is_ell (u ++ [IEll]) = [IEll]) by (rewrite filter_app, (filter_ell_none u H); reflexivity).
+  assert (Hfn : filter is_none (u ++ [IEll]) = filter is_none u) by (rewrite filter_app; cbn [filter is_none]; apply app_nil_r).
+  unfold getitem_tuple at 1. rewrite Hfe. cbn [length Nat.ltb Nat.leb].
+  assert (Hex : expand_ell (length x) (u ++ [IEll]) = u ++ repeat full_slice (length x + 1 + length (filter is_none u) - S (S (length t)))).
+  { unfold expand_ell. rewrite Hfn.
+    assert (Hl : length (u ++ [IEll]) = S (S (length t))) by (rewrite app_length; unfold u; cbn [length]; lia).
+    rewrite Hl.
+    assert (Hh : is_ell it0 = false) by (unfold u in H; simpl in H; apply andb_true_iff in H; destruct H as [H1 _]; apply negb_true_iff; exact H1).
+    unfold u at 1. cbn [app]. destruct it0; try discriminate; fold u;
+      (change (_ :: t ++ [IEll]) with (u ++ [IEll]); rewrite rev_app_distr; cbn [rev app]; rewrite rev_involutive; reflexivity). }
+  rewrite Hex.
+  set (k := (length x + 1 + length (filter is_none u) - S (S (length t)))%nat).
+  pose proof (no_ell_repeat_r k u H) as Hn.
+  unfold getitem_tuple. destruct (no_ell_expand (length x) _ Hn) as [He Hf]. rewrite Hf, He. reflexivity.
+Qed.
+
 End GetitemP.
